@@ -104,7 +104,79 @@ def sym_params(m, tag="p"):
     return out
 
 
+def _deep_snapshot(obj):
+    """Copy of a user-supplied integrate() argument (lists/tuples/dicts of arrays, DataFrames)."""
+    import pandas as pd
+    if isinstance(obj, dict): return {k: _deep_snapshot(v) for k, v in obj.items()}
+    if isinstance(obj, (list, tuple)): return [_deep_snapshot(v) for v in obj]
+    if isinstance(obj, pd.DataFrame): return obj.copy(deep=True)
+    if obj is None or isinstance(obj, (str, int, float)): return obj
+    return np.asarray(obj).copy()
+
+
+def _deep_equal(a, b):
+    import pandas as pd
+    if isinstance(a, dict): return isinstance(b, dict) and set(a) == set(b) and all(_deep_equal(a[k], b[k]) for k in a)
+    if isinstance(a, list): return isinstance(b, (list, tuple)) and len(a) == len(b) and all(_deep_equal(x, y) for x, y in zip(a, b))
+    if isinstance(a, pd.DataFrame): return isinstance(b, pd.DataFrame) and a.equals(b)
+    if a is None or isinstance(a, (str, int, float)): return a == b
+    return np.array_equal(np.asarray(a), np.asarray(b))
+
+
+def run_reuse(inst):
+    """Arguments handed to integrate are the caller's objects: they must come back untouched
+    and a second call with the very same objects must return the same result (eager, then
+    jitted-after-eager).  Exercises data_set on node and edge (synaptic) parameters with two
+    interleaved synapse types, data_stimulate, data_clamp and trainables."""
+    import jax
+    jax.config.update("jax_enable_x64", True)
+    import jax.numpy as jnp
+    import jaxley as jx
+    smt.reset_stats()
+    res = {"violations": [], "inconclusive": [], "counters": {}, "functions": ["jaxley/integrate.py:integrate (executed concretely, argument aliasing)"]}
+    name = inst["module"]
+    m = zoo.build(name)
+    m.record("v", verbose=False)
+    kw = dict(solver=inst["solver"], voltage_solver=inst["voltage_solver"], delta_t=0.025)
+    ps = m.select(nodes=[0]).data_set("radius", 1.3, None)
+    if len(m.edges):
+        for syn in m.synapses:
+            rows = [i for i, t_ in enumerate(m.edges["type"]) if t_ == syn._name]
+            key = [k for k in syn.synapse_params][0]
+            ps = m.select(edges=[rows[-1]]).data_set(key, 3.3e-4, ps)
+    m.select(nodes=[len(m.nodes) - 1]).make_trainable("Leak_gLeak", verbose=False)
+    params = m.get_parameters()
+    ds = m.select(nodes=[0]).data_stimulate(jnp.asarray([[0.2, 0.1, 0.3]]), None)
+    dc = m.select(nodes=[1]).data_clamp("v", jnp.asarray([[-60.0, -61.0, -62.0]]), None) if len(m.nodes) > 1 else None
+    args = dict(params=params, param_state=ps, data_stimuli=ds, data_clamps=dc)
+    snap = _deep_snapshot(args)
+    f = lambda: jx.integrate(m, **args, **kw)
+    r1 = np.asarray(f())
+    changed = [k for k in args if not _deep_equal(snap[k], args[k])]
+    r2 = np.asarray(f())
+    r3 = np.asarray(jax.jit(lambda p: jx.integrate(m, params=p, param_state=ps, data_stimuli=ds, data_clamps=dc, **kw))(params))
+    r4 = np.asarray(f())
+    changed2 = [k for k in args if not _deep_equal(snap[k], args[k])]
+    def viol(clause, what):
+        res["violations"].append({"signature": {"clause": clause, "mode": "reused_inputs"}, "what": f"{name} {inst['solver']}/{inst['voltage_solver']}: {what}", "replay": {"inst": inst, "clause": clause, "mode": "reused_inputs"}})
+    if changed or changed2:
+        viol("arguments_untouched", f"integrate modified its arguments in place: {sorted(set(changed + changed2))}")
+    dev = lambda a, b: float(np.max(np.abs(a - b))) if a.shape == b.shape else float("inf")
+    if not np.array_equal(r1, r2):
+        viol("repeat_bit_identical", f"second call with the same argument objects differs by {dev(r1, r2):.3g}")
+    if dev(r1, r3) > 1e-9 * (1 + np.max(np.abs(r1))):
+        viol("jit_equals_eager", f"jitted call after an eager call differs by {dev(r1, r3):.3g}")
+    if not np.array_equal(r1, r4):
+        viol("repeat_bit_identical", f"eager call after a jitted call differs by {dev(r1, r4):.3g}")
+    res["counters"]["reuse_instances"] = 1
+    res["stats"] = dict(smt.STATS)
+    res["sample"] = {"instance": inst, "argument_kinds": sorted(k for k, v in args.items() if v is not None)}
+    return res
+
+
 def run_instance(inst):
+    if inst.get("kind") == "reuse":
+        return run_reuse(inst)
     import jax
     jax.config.update("jax_enable_x64", True)
     import jax.numpy as jnp
@@ -260,6 +332,9 @@ def families():
             n = 3 if quick else 4
             ck = [[n], [n + 1], [2, 2]] if quick else [[n], [n + 2], [2, 2], [2, 3], [2, 2, 2], [1, n], [n, 1]]
             insts.append({"module": mod, "solver": solver, "voltage_solver": vs, "steps": n, "ckpts": [c for c in ck if int(np.prod(c)) >= n]})
+    for mod in ["net3_mixed", "cell_irreg_passive", "net2_iono"]:
+        for solver, vs in combos[:2] if quick else combos:
+            insts.append({"kind": "reuse", "module": mod, "solver": solver, "voltage_solver": vs})
     return insts
 
 
